@@ -24,6 +24,7 @@ CFG_CLI = """SPECIFICATION Spec
 CONSTANTS
   MaxArgs = %d
   Emit = %s
+  Clean = %s
 INVARIANT Atomic
 INVARIANT Reports
 INVARIANT Complete
@@ -34,10 +35,10 @@ CHECK_DEADLOCK FALSE
 """
 
 
-def mc_cli(chk, maxargs, emit=True):
-    r = chk.model_check("MC_Cli", CFG_CLI % (maxargs, "TRUE" if emit else "FALSE"),
-                        "CLI process, every plan with <=%d arguments x output situation x single fault: Atomic Reports Complete "
-                        "Assembled, OnlyWriteAfterRender, Terminates" % maxargs)
+def mc_cli(chk, maxargs, emit=True, clean=False):
+    r = chk.model_check("MC_Cli", CFG_CLI % (maxargs, "TRUE" if emit else "FALSE", "TRUE" if clean else "FALSE"),
+                        "CLI process, every %splan with <=%d arguments x output situation%s: Atomic Reports Complete "
+                        "Assembled, OnlyWriteAfterRender, Terminates" % ("fault-free " if clean else "", maxargs, "" if clean else " x single fault"))
     return [json.loads(t[1]) for t in tlc.printed_tuples(r["out"], "B")] if emit else []
 
 
@@ -79,6 +80,7 @@ def materialise(plan, opt, rng, work, fmt="json"):
     per_model = {}
     order = [a for a in plan["args"] if a["flag"] == "m"] + [a for a in plan["args"] if a["flag"] == "l"]
     contents = {}
+    first = None
     for i, a in enumerate(plan["args"], 1):
         fn = "f%d.%s" % (i, fmt)
         path = os.path.join(work, fn)
@@ -124,6 +126,15 @@ def materialise(plan, opt, rng, work, fmt="json"):
                 pass
         elif kind == "nonstrkey":
             data = objs[0]
+        if a.get("alias"):
+            # exactly the same file and lookup as argument 1, given once more (possibly under another model name)
+            kind1, objs1, lookup1, path1 = first
+            contents[i] = (kind1, objs1)
+            if a["flag"] == "m":
+                argv += ["-m", a["model"]] + ([lookup1] if lookup1 != "-" else []) + [path1]
+            else:
+                argv += ["-l", a["model"], lookup1, path1]
+            continue
         if fmt == "ini" and kind in ("object", "lookup", "malformed", "badlookup", "missing", "scalar"):
             # configparser gives {section: {key: str}}: the whole file is one object, or a section is selected by lookup
             def ini_obj(sid):
@@ -142,6 +153,8 @@ def materialise(plan, opt, rng, work, fmt="json"):
             elif kind == "scalar":
                 text, lookup = _ini_text({"res": {"v": "5"}}), "res.v"
             contents[i] = (kind, objs)
+            if i == 1:
+                first = (kind, objs, lookup, path)
             if kind != "missing":
                 with open(path, "w") as f:
                     f.write(text)
@@ -169,8 +182,10 @@ def materialise(plan, opt, rng, work, fmt="json"):
                     json.dump(data, f)
                 else:
                     f.write(json.dumps(data))      # JSON is YAML
+        if i == 1:
+            first = (kind, objs, lookup, path)
         if a["flag"] == "m":
-            argv += ["-m", a["model"]] + ([lookup] if lookup != "-" or rng.random() < 0.3 else []) + [path]
+            argv += ["-m", a["model"]] + ([lookup] if lookup != "-" or (rng.random() < 0.3 and i != 1) else []) + [path]
         else:
             argv += ["-l", a["model"], lookup, path]
     for a in order:
